@@ -21,6 +21,7 @@ from labtech.types import is_task
 import lv_universe as U
 import values_h as V
 from common import coq_failing, rng_for, CoqError, g_list, g_bool, subdir, PY
+from common import storage_of
 
 
 def has_nan(spec):
@@ -473,7 +474,7 @@ def stage_listing(report, tier, rng, dist):
             # the storage as load_metadata sees it, in find_keys order
             tokens = {}
             entries = []
-            for key in lab._storage.find_keys():
+            for key in storage_of(lab).find_keys():
                 try:
                     md = json.load(open(os.path.join(storage, key, 'metadata.json')))
                 except (OSError, ValueError):
